@@ -98,6 +98,9 @@ Proof.
     injection Ha as <-. injection Hb as <-. rewrite (IH xs ys eq_refl eq_refl). reflexivity.
 Qed.
 
+Lemma Forall2_len : forall {A B} (P : A -> B -> Prop) l m, Forall2 P l m -> length l = length m.
+Proof. induction 1; cbn; congruence. Qed.
+
 Lemma map_nth_seq : forall {A} (l : list A) d,
   map (fun c => nth c l d) (seq 0 (length l)) = l.
 Proof.
@@ -278,3 +281,315 @@ Section RingProofs.
     intros R t. unfold rotate. split; [apply map_length|]. intros c d. apply map_nth.
   Qed.
 End RingProofs.
+
+(* ------------------------------------------------------------------------------------ *)
+(* copy, restriction, fourth-order tensor                                                 *)
+(* ------------------------------------------------------------------------------------ *)
+Section RingProofs2.
+  Variable T : Type.
+  Variables (rO rI : T) (radd rmul rsub : T -> T -> T) (ropp : T -> T).
+  Hypothesis Rth : ring_theory rO rI radd rmul rsub ropp eq.
+  Add Ring Tring2 : Rth.
+  Variable neg : T -> bool.
+  Notation ops := (rops T rO rI radd rmul rsub neg).
+
+  Lemma nthT_map_seq : forall (f : nat -> T) n c, c < n ->
+    nthT ops (map f (seq 0 n)) c = f c.
+  Proof.
+    intros f n c H. unfold nthT.
+    rewrite (nth_indep _ (zero ops) (f 0)) by (now rewrite map_length, seq_length).
+    rewrite map_nth, seq_nth by assumption. reflexivity.
+  Qed.
+
+  Lemma existsb_cellwise_ext : forall n (f g : nat -> T),
+    (forall c, c < n -> f c = g c) ->
+    any_neg ops (cellwise n f) = any_neg ops (cellwise n g).
+  Proof.
+    intros n f g H. unfold any_neg, cellwise. f_equal. apply map_ext_in.
+    intros c Hc. apply in_seq in Hc. apply H. lia.
+  Qed.
+
+  (* the constructor only looks at the first Nc entries of its arrays *)
+  Lemma second_order_ext : forall kxx yy zz xy xz yz yy' zz' xy' xz' yz',
+    (forall c, c < length kxx ->
+       nthT ops yy c = nthT ops yy' c /\ nthT ops zz c = nthT ops zz' c /\
+       nthT ops xy c = nthT ops xy' c /\ nthT ops xz c = nthT ops xz' c /\
+       nthT ops yz c = nthT ops yz' c) ->
+    second_order ops kxx (Some yy) (Some zz) (Some xy) (Some xz) (Some yz) =
+    second_order ops kxx (Some yy') (Some zz') (Some xy') (Some xz') (Some yz').
+  Proof.
+    intros kxx yy zz xy xz yz yy' zz' xy' xz' yz' H. unfold second_order.
+    destruct (any_neg ops kxx); [reflexivity|].
+    match goal with
+    | |- (if any_neg ops (cellwise ?n ?f) then _ else _) =
+         (if any_neg ops (cellwise ?n ?g) then _ else _) =>
+        replace (cellwise n f) with (cellwise n g)
+    end.
+    2:{ apply map_ext_in; intros c Hc; apply in_seq in Hc.
+        destruct (H c ltac:(lia)) as (E1 & E2 & E3 & E4 & E5).
+        rewrite ?E1, ?E2, ?E3, ?E4, ?E5. reflexivity. }
+    match goal with |- (if ?b then _ else _) = _ => destruct b; [reflexivity|] end.
+    match goal with
+    | |- (if any_neg ops (cellwise ?n ?f) then _ else _) =
+         (if any_neg ops (cellwise ?n ?g) then _ else _) =>
+        replace (cellwise n f) with (cellwise n g)
+    end.
+    2:{ apply map_ext_in; intros c Hc; apply in_seq in Hc.
+        destruct (H c ltac:(lia)) as (E1 & E2 & E3 & E4 & E5).
+        rewrite ?E1, ?E2, ?E3, ?E4, ?E5. reflexivity. }
+    match goal with |- (if ?b then _ else _) = _ => destruct b; [reflexivity|] end.
+    f_equal. apply map_ext_in; intros c Hc; apply in_seq in Hc.
+    destruct (H c ltac:(lia)) as (E1 & E2 & E3 & E4 & E5).
+        rewrite ?E1, ?E2, ?E3, ?E4, ?E5. reflexivity.
+  Qed.
+
+  (* a tensor produced by the constructor passes the constructor's tests again and is
+     re-built identically: copy returns an equal tensor (value equality; independence of
+     the arrays is checked by the tie) *)
+  Lemma copy_of_constructed : forall kxx kyy kzz kxy kxz kyz t,
+    second_order ops kxx kyy kzz kxy kxz kyz = Ok t -> copy2 ops t = Ok t.
+  Proof.
+    intros kxx kyy kzz kxy kxz kyz t H.
+    pose proof (second_order_layout T rO rI radd rmul rsub neg _ _ _ _ _ _ _ H) as Ht.
+    cbv zeta in Ht.
+    set (z := map (rmul rO) kxx) in *.
+    set (yy := dflt T kyy kxx) in *. set (zz := dflt T kzz kxx) in *.
+    set (xy := dflt T kxy z) in *. set (xz := dflt T kxz z) in *. set (yz := dflt T kyz z) in *.
+    rewrite <- H.
+    change (second_order ops kxx kyy kzz kxy kxz kyz)
+      with (second_order ops kxx (Some yy) (Some zz) (Some xy) (Some xz) (Some yz)).
+    unfold copy2.
+    assert (G : forall (i j : idx) c, c < length kxx ->
+              nthT ops (map (fun m => get m i j) t) c =
+              get (cell_matrix T rO rI radd rmul rsub neg kxx yy zz xy xz yz c) i j).
+    { intros i j c Hc. rewrite Ht, map_map. now rewrite nthT_map_seq. }
+    assert (Hxx : map (fun m => get m I0 I0) t = kxx).
+    { rewrite Ht, map_map. cbn. unfold nthT. apply map_nth_seq. }
+    rewrite Hxx. apply second_order_ext. intros c Hc. rewrite !G by assumption.
+    repeat split; reflexivity.
+  Qed.
+
+  (* restriction of a constructed tensor selects exactly the given cells *)
+  Lemma restrict_of_constructed : forall kxx kyy kzz kxy kxz kyz t cells,
+    second_order ops kxx kyy kzz kxy kxz kyz = Ok t ->
+    restrict2 ops t cells = take_cells t cells.
+  Proof.
+    intros. unfold restrict2. now rewrite (copy_of_constructed _ _ _ _ _ _ _ H).
+  Qed.
+
+  (* ---------------- fourth order ---------------- *)
+  Definition delta (i j : idx) : T :=
+    match i, j with I0, I0 | I1, I1 | I2, I2 => rI | _, _ => rO end.
+  Definition n_of (i : idx) : nat := match i with I0 => 0 | I1 => 1 | I2 => 2 end.
+
+  (* the 9x9 matrix of a cell is the isotropic stiffness tensor
+       C_ijkl = lmbda d_ij d_kl + mu (d_ik d_jl + d_il d_jk),  row 3i+j, column 3k+l *)
+  Lemma stiff_cell_formula : forall mu la i j k l,
+    entry ops (stiff_cell ops mu la) (3 * n_of i + n_of j) (3 * n_of k + n_of l) =
+    radd (rmul la (rmul (delta i j) (delta k l)))
+         (rmul mu (radd (rmul (delta i k) (delta j l)) (rmul (delta i l) (delta j k)))).
+  Proof.
+    intros mu la i j k l. destruct i, j, k, l; cbn; ring.
+  Qed.
+
+  Lemma stiff_cell_symmetric : forall mu la p q, p < 9 -> q < 9 ->
+    entry ops (stiff_cell ops mu la) p q = entry ops (stiff_cell ops mu la) q p.
+  Proof.
+    intros mu la p q Hp Hq.
+    do 9 (destruct p as [|p]; [do 9 (destruct q as [|q]; [reflexivity|]); lia|]). lia.
+  Qed.
+
+  Lemma stiff_cell_shape : forall mu la,
+    length (stiff_cell ops mu la) = 9 /\ Forall (fun r => length r = 9) (stiff_cell ops mu la).
+  Proof. intros. split; [reflexivity|]. repeat constructor. Qed.
+
+  Lemma fourth_order_spec : forall mu la,
+    (length mu = length la ->
+       fourth_order ops mu la =
+       Ok {| t_mu := mu; t_lmbda := la;
+             t_values := map (fun ml => stiff_cell ops (fst ml) (snd ml)) (combine mu la) |}) /\
+    (length mu <> length la -> fourth_order ops mu la = Err ValueErr).
+  Proof.
+    intros mu la. unfold fourth_order. split; intros H.
+    - now rewrite H, Nat.eqb_refl.
+    - apply Nat.eqb_neq in H. now rewrite H.
+  Qed.
+
+  Lemma copy4_of_constructed : forall mu la t,
+    fourth_order ops mu la = Ok t -> copy4 ops t = Ok t.
+  Proof.
+    intros mu la t H. unfold fourth_order in H.
+    destruct (Nat.eqb (length mu) (length la)) eqn:E; [|discriminate]. cbn in H.
+    injection H as <-. unfold copy4, fourth_order. cbn. rewrite E. reflexivity.
+  Qed.
+
+  (* restriction commutes with construction: the restricted tensor is the tensor of the
+     selected mu / lmbda values *)
+  Lemma restrict4_of_constructed : forall mu la t cells t',
+    fourth_order ops mu la = Ok t -> restrict4 ops t cells = Ok t' ->
+    take_cells mu cells = Ok (t_mu t') /\ take_cells la cells = Ok (t_lmbda t') /\
+    take_cells (t_values t) cells = Ok (t_values t') /\
+    fourth_order ops (t_mu t') (t_lmbda t') = Ok t'.
+  Proof.
+    intros mu la t cells t' H Hr. unfold restrict4 in Hr.
+    rewrite (copy4_of_constructed _ _ _ H) in Hr.
+    unfold fourth_order in H.
+    destruct (Nat.eqb (length mu) (length la)) eqn:E; [|discriminate]. cbn in H.
+    apply Nat.eqb_eq in E. injection H as <-. cbn in Hr.
+    destruct (take_cells mu cells) as [m|] eqn:Em; [|discriminate].
+    destruct (take_cells la cells) as [l|] eqn:El; [|discriminate].
+    rewrite take_cells_map, (take_cells_combine mu la cells m l E Em El) in Hr.
+    injection Hr as <-. cbn. repeat split.
+    - now rewrite take_cells_map, (take_cells_combine mu la cells m l E Em El).
+    - unfold fourth_order.
+      assert (length m = length l) as ->.
+      { apply take_cells_spec in Em. apply take_cells_spec in El.
+        apply Forall2_len in Em. apply Forall2_len in El. congruence. }
+      now rewrite Nat.eqb_refl.
+  Qed.
+
+  Lemma restrict4_error : forall mu la t cells e,
+    fourth_order ops mu la = Ok t -> restrict4 ops t cells = Err e ->
+    e = IndexErr /\ Exists (fun c => ~ in_range (Z.of_nat (length mu)) c) cells.
+  Proof.
+    intros mu la t cells e H Hr. unfold restrict4 in Hr.
+    rewrite (copy4_of_constructed _ _ _ H) in Hr.
+    unfold fourth_order in H.
+    destruct (Nat.eqb (length mu) (length la)) eqn:E; [|discriminate]. cbn in H.
+    apply Nat.eqb_eq in E. injection H as <-. cbn in Hr.
+    destruct (take_cells mu cells) as [m|e1] eqn:Em.
+    - exfalso.
+      destruct (take_cells la cells) as [l|e2] eqn:El.
+      + rewrite take_cells_map, (take_cells_combine mu la cells m l E Em El) in Hr. discriminate.
+      + apply take_cells_error in El as [_ Hex]. rewrite <- E in Hex.
+        apply take_cells_spec in Em. clear -Em Hex.
+        induction Em; inversion Hex; subst; tauto.
+    - injection Hr as <-. now apply take_cells_error.
+  Qed.
+End RingProofs2.
+
+(* ------------------------------------------------------------------------------------ *)
+(* the statements of Props/C40.v                                                          *)
+(* ------------------------------------------------------------------------------------ *)
+Lemma C40_second_order_symmetric_l :
+  forall (T : Type) (rO rI : T) (radd rmul rsub : T -> T -> T) (neg : T -> bool)
+         (kxx : list T) (kyy kzz kxy kxz kyz : option (list T)),
+    let ops := rops T rO rI radd rmul rsub neg in
+    (forall t, second_order ops kxx kyy kzz kxy kxz kyz = Ok t ->
+       length t = length kxx /\ Forall (sym33 T) t /\
+       let z := map (rmul rO) kxx in
+       t = map (cell_matrix T rO rI radd rmul rsub neg kxx (dflt T kyy kxx) (dflt T kzz kxx)
+                            (dflt T kxy z) (dflt T kxz z) (dflt T kyz z))
+               (seq 0 (length kxx))) /\
+    (forall e, second_order ops kxx kyy kzz kxy kxz kyz = Err e -> e = ValueErr).
+Proof.
+  intros T rO rI radd rmul rsub neg kxx kyy kzz kxy kxz kyz ops. split.
+  - intros t H. destruct (second_order_symmetric T rO rI radd rmul rsub neg _ _ _ _ _ _ _ H).
+    repeat split; auto. exact (second_order_layout T rO rI radd rmul rsub neg _ _ _ _ _ _ _ H).
+  - exact (second_order_error T rO rI radd rmul rsub neg kxx kyy kzz kxy kxz kyz).
+Qed.
+
+Lemma C40_rotate_similarity_l :
+  forall (T : Type) (rO rI : T) (radd rmul rsub : T -> T -> T) (ropp : T -> T),
+    ring_theory rO rI radd rmul rsub ropp eq ->
+  forall (neg : T -> bool) (R K : m33 T),
+    let ops := rops T rO rI radd rmul rsub neg in
+    rot1 ops R K = mmul ops (mmul ops R (transpose K)) (transpose R) /\
+    (sym33 T K -> rot1 ops R K = mmul ops (mmul ops R K) (transpose R) /\
+                  sym33 T (rot1 ops R K)) /\
+    (orthogonal T rO rI radd rmul rsub neg R ->
+       trace ops (rot1 ops R K) = trace ops K /\
+       det ops (rot1 ops R K) = det ops K /\
+       inv2 ops (rot1 ops R K) = inv2 ops K /\
+       forall lam, det ops (lam_minus ops lam (rot1 ops R K)) = det ops (lam_minus ops lam K)).
+Proof.
+  intros T rO rI radd rmul rsub ropp Rth neg R K ops.
+  pose proof (rot1_formula T rO rI radd rmul rsub ropp Rth neg R K) as F.
+  split; [exact F|]. split.
+  - intros S. split.
+    + unfold ops. rewrite F. now rewrite (transpose_sym T K S).
+    + exact (rot1_symmetric T rO rI radd rmul rsub ropp Rth neg R K S).
+  - intros O. destruct (rot_invariants T rO rI radd rmul rsub ropp Rth neg R K O) as (A & B & C).
+    repeat split; auto.
+    intros lam. exact (rot_charpoly T rO rI radd rmul rsub ropp Rth neg R K lam O).
+Qed.
+
+Lemma C40_restrict_selects_l :
+  forall (T : Type) (rO rI : T) (radd rmul rsub : T -> T -> T) (neg : T -> bool)
+         kxx kyy kzz kxy kxz kyz (t : list (m33 T)) (cells : list Z),
+    let ops := rops T rO rI radd rmul rsub neg in
+    let n := Z.of_nat (length t) in
+    second_order ops kxx kyy kzz kxy kxz kyz = Ok t ->
+    (forall r, restrict2 ops t cells = Ok r ->
+       Forall2 (fun c x => in_range n c /\ nth_error t (Z.to_nat (wrap n c)) = Some x) cells r) /\
+    (Forall (in_range n) cells -> exists r, restrict2 ops t cells = Ok r) /\
+    (forall e, restrict2 ops t cells = Err e ->
+       e = IndexErr /\ Exists (fun c => ~ in_range n c) cells).
+Proof.
+  intros T rO rI radd rmul rsub neg kxx kyy kzz kxy kxz kyz t cells ops n H.
+  unfold ops. rewrite (restrict_of_constructed T rO rI radd rmul rsub neg _ _ _ _ _ _ _ cells H).
+  repeat split.
+  - intros r Hr. exact (take_cells_spec t cells r Hr).
+  - exact (take_cells_total t cells).
+  - apply take_cells_error in H0. tauto.
+  - apply take_cells_error in H0. tauto.
+Qed.
+
+Lemma C40_copy_equal_l :
+  forall (T : Type) (rO rI : T) (radd rmul rsub : T -> T -> T) (neg : T -> bool)
+         kxx kyy kzz kxy kxz kyz (t : list (m33 T)) mu la (t4 : @tensor4 T),
+    let ops := rops T rO rI radd rmul rsub neg in
+    (second_order ops kxx kyy kzz kxy kxz kyz = Ok t -> copy2 ops t = Ok t) /\
+    (fourth_order ops mu la = Ok t4 -> copy4 ops t4 = Ok t4).
+Proof.
+  intros. split.
+  - exact (copy_of_constructed T rO rI radd rmul rsub neg _ _ _ _ _ _ t).
+  - exact (copy4_of_constructed T rO rI radd rmul rsub neg mu la t4).
+Qed.
+
+Lemma C40_fourth_order_symmetric_l :
+  forall (T : Type) (rO rI : T) (radd rmul rsub : T -> T -> T) (ropp : T -> T),
+    ring_theory rO rI radd rmul rsub ropp eq ->
+  forall (neg : T -> bool),
+    let ops := rops T rO rI radd rmul rsub neg in
+    (forall mu la : list T,
+       (length mu = length la ->
+          fourth_order ops mu la =
+          Ok {| t_mu := mu; t_lmbda := la;
+                t_values := map (fun ml => stiff_cell ops (fst ml) (snd ml)) (combine mu la) |}) /\
+       (length mu <> length la -> fourth_order ops mu la = Err ValueErr)) /\
+    (forall (mu la : T) i j k l,
+       entry ops (stiff_cell ops mu la) (3 * n_of i + n_of j) (3 * n_of k + n_of l) =
+       radd (rmul la (rmul (delta T rO rI i j) (delta T rO rI k l)))
+            (rmul mu (radd (rmul (delta T rO rI i k) (delta T rO rI j l))
+                           (rmul (delta T rO rI i l) (delta T rO rI j k))))) /\
+    (forall (mu la : T),
+       length (stiff_cell ops mu la) = 9 /\
+       Forall (fun r => length r = 9) (stiff_cell ops mu la) /\
+       forall p q, p < 9 -> q < 9 ->
+         entry ops (stiff_cell ops mu la) p q = entry ops (stiff_cell ops mu la) q p).
+Proof.
+  intros T rO rI radd rmul rsub ropp Rth neg ops. repeat split.
+  - apply (fourth_order_spec T rO rI radd rmul rsub neg mu la).
+  - apply (fourth_order_spec T rO rI radd rmul rsub neg mu la).
+  - intros. exact (stiff_cell_formula T rO rI radd rmul rsub ropp Rth neg mu la i j k l).
+  - apply (stiff_cell_shape T rO rI radd rmul rsub neg mu la).
+  - exact (stiff_cell_symmetric T rO rI radd rmul rsub neg mu la).
+Qed.
+
+Lemma C40_restrict_fourth_order_l :
+  forall (T : Type) (rO rI : T) (radd rmul rsub : T -> T -> T) (neg : T -> bool)
+         (mu la : list T) (t : @tensor4 T) (cells : list Z),
+    let ops := rops T rO rI radd rmul rsub neg in
+    fourth_order ops mu la = Ok t ->
+    (forall t', restrict4 ops t cells = Ok t' ->
+       take_cells mu cells = Ok (t_mu t') /\ take_cells la cells = Ok (t_lmbda t') /\
+       take_cells (t_values t) cells = Ok (t_values t') /\
+       fourth_order ops (t_mu t') (t_lmbda t') = Ok t') /\
+    (forall e, restrict4 ops t cells = Err e ->
+       e = IndexErr /\ Exists (fun c => ~ in_range (Z.of_nat (length mu)) c) cells).
+Proof.
+  intros T rO rI radd rmul rsub neg mu la t cells ops H. split.
+  - intros t' Hr. exact (restrict4_of_constructed T rO rI radd rmul rsub neg mu la t cells t' H Hr).
+  - intros e Hr. exact (restrict4_error T rO rI radd rmul rsub neg mu la t cells e H Hr).
+Qed.
